@@ -17,6 +17,7 @@ import (
 	lifecyclev2 "github.com/conduitio/conduit/pkg/lifecycle-poc"
 	"github.com/conduitio/conduit/pkg/pipeline"
 	"github.com/conduitio/conduit/pkg/processor"
+	"github.com/conduitio/conduit/pkg/provisioning"
 	"github.com/rs/zerolog"
 )
 
@@ -45,6 +46,7 @@ type Stack struct {
 	dead chan struct{}
 	v1   *lifecycle.Service
 	v2   *lifecyclev2.Service
+	prov *provisioning.Service // built on demand (family apply)
 
 	failures []string
 }
@@ -146,6 +148,10 @@ func (st *Stack) setupScenario(ctx context.Context) error {
 	if err != nil {
 		return err
 	}
+	if cfg.Scenario == "apply" {
+		// a processor that applies can add and remove; its condition never holds, so it never touches a record
+		w.procs[inertProcID] = newProcSys(w, ProcCfg{ID: inertProcID, Workers: 1, Cond: condNever})
+	}
 	mkProcs := func(ps []ProcCfg, parent processor.Parent, add func(string) error) error {
 		for _, pc := range ps {
 			w.procs[pc.ID] = newProcSys(w, pc)
@@ -208,7 +214,7 @@ func (st *Stack) setupScenario(ctx context.Context) error {
 
 // trigger predicate for an action.
 func (w *World) triggerReady(a Action) bool {
-	if a.Op == "reconfigure" {
+	if a.Op == "reconfigure" || a.Op == "apply" {
 		// N carries the revision; the trigger threshold is in the note ("at=<n>")
 		if i := strings.Index(a.Note, "at="); i >= 0 {
 			fmt.Sscanf(a.Note[i+3:], "%d", &a.N)
@@ -278,6 +284,19 @@ func (w *World) triggerReady(a Action) bool {
 			done = false
 		}
 		return done && w.or.settled(w)
+	case "ap-done":
+		for _, cl := range []string{"ap1", "ap2", "stopper"} {
+			has := false
+			for _, pa := range w.cfg.Plan {
+				if pa.Client == cl {
+					has = true
+				}
+			}
+			if has && !w.or.ctl.clientDone[cl] {
+				return false
+			}
+		}
+		return w.or.quiescent(w) || w.or.settled(w)
 	case "rc-done":
 		for _, cl := range []string{"rc", "rc2", "stopper"} {
 			has := false
